@@ -878,6 +878,53 @@ theorem not_child_verdict_unchanged (m : Mode) (env : Env) (kw : Kw) (a b c : Li
     passesL (nodeD m env kw a b c p sc v { r with rn := r.rn.map (fun o => (o.1, x)) }).1 = passesL (nodeD m env kw a b c p sc v r).1 := by
   rw [not_child_leaves_nothing]
 
+/-- **Nothing a oneOf / anyOf candidate that does not accept writes is ever read** (such a candidate runs on a private
+copy, table SubVisits rows 2 and 4): the visit of a node is the same whatever those candidates left behind -/
+theorem failed_candidates_leave_nothing (m : Mode) (env : Env) (kw : Kw) (a b c : List S) (p : List (String × S)) (sc : Bool)
+    (v x y : J) (r : Subs) :
+    nodeD m env kw a b c p sc v { r with ro := dropFailed x r.ro, ra := dropFailed y r.ra } = nodeD m env kw a b c p sc v r := by
+  cases r with
+  | mk rn ro ra rl items props addl =>
+    simp only [nodeD, afterOne, oneOK, afterAny, anyOK, outsEvs_dropFailed, passing_dropFailed, firstPass_dropFailed]
+
+/-- non-vacuity of `dropFailed`: the accepting candidate keeps what it wrote, the failing one does not -/
+example : (dropFailed .null [([], .str "kept"), ([.fail nullErr true], .str "dropped")]).map (fun o => jeq o.2 (.str "kept")) = [true, false] := by
+  decide
+
+/-- **Every default is accounted for**: a `default` the injection loop can reach is reachable without passing a `not`
+(it can be written into the caller's value: `hasOwnDflt`) or lives below a `not` (`dfltUnderNot`, where what is written is
+dropped) — the three predicates of Schema/Defaults.lean partition as the check's case split assumes -/
+theorem hasPropDflt_split_all :
+    (∀ s : S, s.hasPropDflt = (s.hasOwnDflt || s.dfltUnderNot)) ∧
+    (∀ p : List (String × S), hasPropDfltP p = (hasOwnDfltP p || dfltUnderNotP p)) ∧
+    (∀ o : Option S, hasPropDfltO o = (hasOwnDfltO o || dfltUnderNotO o)) ∧
+    (∀ l : List S, hasPropDfltL l = (hasOwnDfltL l || dfltUnderNotL l)) := by
+  refine S.hasPropDflt.mutual_induct
+    (motive_1 := fun s => s.hasPropDflt = (s.hasOwnDflt || s.dfltUnderNot))
+    (motive_4 := fun l => hasPropDfltL l = (hasOwnDfltL l || dfltUnderNotL l))
+    (motive_3 := fun o => hasPropDfltO o = (hasOwnDfltO o || dfltUnderNotO o))
+    (motive_2 := fun p => hasPropDfltP p = (hasOwnDfltP p || dfltUnderNotP p))
+    ?_ ?_ ?_ ?_ ?_ ?_ ?_
+  · intro kw a b c n i p ad iha ihb ihc ihn ihi ihp ihad
+    rw [S.hasPropDflt, S.hasOwnDflt, S.dfltUnderNot, iha, ihb, ihc, ihn, ihi, ihp, ihad]
+    grind
+  · simp [hasPropDfltL, hasOwnDfltL, dfltUnderNotL]
+  · intro s ss ih1 ih2
+    rw [hasPropDfltL, hasOwnDfltL, dfltUnderNotL, ih1, ih2]
+    cases s.hasOwnDflt <;> cases s.dfltUnderNot <;> simp
+  · simp [hasPropDfltO, hasOwnDfltO, dfltUnderNotO]
+  · intro s ih; simpa [hasPropDfltO, hasOwnDfltO, dfltUnderNotO] using ih
+  · simp [hasPropDfltP, hasOwnDfltP, dfltUnderNotP]
+  · intro k s ps ih1 ih2
+    rw [hasPropDfltP, hasOwnDfltP, dfltUnderNotP, ih1, ih2]
+    cases s.kw.dflt.isSome <;> cases s.hasOwnDflt <;> cases s.dfltUnderNot <;> simp
+
+theorem hasPropDflt_split (s : S) : s.hasPropDflt = (s.hasOwnDflt || s.dfltUnderNot) := hasPropDflt_split_all.1 s
+
+/-- a schema that cannot write into the caller's value has all its defaults below `not`s -/
+theorem defaults_only_under_not (s : S) (h : s.hasOwnDflt = false) : s.hasPropDflt = s.dfltUnderNot := by
+  rw [hasPropDflt_split, h, Bool.false_or]
+
 /-- non-vacuity: a `not` child that fails (so `not` is satisfied) and left an enlarged array behind — the node still
 hands back the caller's value -/
 example : jeq (nodeD .dflt { regex := fun _ _ => none, strFormat := fun _ _ => none, asreq := true, dfl := true }
